@@ -42,6 +42,14 @@ inline std::error_code make_error_code(MicmBackwardEulerErrc e)
 
 namespace micm
 {
+#ifdef MICM_VERIF_HOOKS
+  namespace verif_hooks
+  {
+    /// Verification instrumentation only (compiled in with -DMICM_VERIF_HOOKS): number of values that
+    /// BackwardEuler::Solve clipped to zero on the calling thread
+    inline thread_local std::size_t be_clipped_values = 0;
+  }  // namespace verif_hooks
+#endif
   template<class RatesPolicy, class LinearSolverPolicy>
   inline SolverResult BackwardEuler<RatesPolicy, LinearSolverPolicy>::Solve(
       double time_step,
@@ -139,6 +147,15 @@ namespace micm
         // solution_blk in camchem
         // Yn1 = Yn1 + residual;
         // always make sure the solution is positive regardless of which iteration we are on
+#ifdef MICM_VERIF_HOOKS
+        Yn1.ForEach(
+            [&](double& yn1, const double& f)
+            {
+              if (yn1 + f < 0.0)
+                ++verif_hooks::be_clipped_values;
+            },
+            forcing);
+#endif
         Yn1.ForEach([&](double& yn1, const double& f) { yn1 = std::max(0.0, yn1 + f); }, forcing);
 
         // if this is the first iteration, we don't need to check for convergence
